@@ -21,6 +21,7 @@ static void gen_ple(const GenCtx &ctx, Case &c, int viewpct) {
       n = std::min(n, 250);
     }
   }
+  if (!naive) g::extreme_shape(ctx, m, n);
   c.set("m", m).set("n", n);
   if (russian) c.set("k", g::rng(0, 8));
   else if (!naive) c.set("cutoff", g::cutoff());
